@@ -55,9 +55,9 @@ with open("/verif/mutate/RESULTS.md", "w") as f:
     f.write("Of the %d survivors that were run and not caught at the time: %d are equivalent mutants for every observable the properties name (most differ only in an error text or re-check something a stricter test already covers), "
             "%d lie outside the claimed properties or the stated model (recorded with the reason), %d were flagged inconclusive (exit 2, not a pass), %d was caught by a check the function table had not listed, "
             "and **%d were real gaps in a check's oracle or environment model, each closed by strengthening the harness and re-run against the mutant** "
-            "(C07 first-separator contract, C03 frame with unsorted initial mounts, C16/C10 'a write succeeds when nothing fails', C20 'every query' incl. the genuine GetErrors defect, C11 pending watcher error).\n"
+            "(C07 first-separator contract, C03 frame with unsorted initial mounts, C16/C10 'a write succeeds when nothing fails', C20 'every query' incl. the genuine GetErrors defect, C11 pending watcher error, C19 errors named before a start-up exit and map-order independence of inject).\n"
             % (sum(len(u) for _, _, u, _ in rows), cats["equivalent"], cats["outside"], cats["flagged"], cats["caught by"], cats["was a GAP"]))
-    f.write("The mutants of `cmd/cdi/cmd/*.go` survive the suite wholesale (the package has no tests) and were not run against C19 for lack of time.\n\n")
+    f.write("The mutants of `cmd/cdi/cmd/*.go` survive the suite wholesale (the package has no tests); they were run against C19 last and triaged by rule (text layout, output format and failures the stubs never produce are outside C19's claim), two of them by hand (both gaps, closed).\n\n")
     f.write("## Triage of survivors the checks did not catch\n\n")
     for rel, c, unc, key in rows:
         if not unc:
